@@ -54,6 +54,13 @@ func GetSession(sid string) (*Session, bool) {
 		return nil, false
 	}
 
+	// An expired session is refused (and forgotten), never revived
+	if !sess.ExpiresAt.After(time.Now()) {
+		sessionStore.Delete(sid)
+		slog.Debug("Refused expired session", "session_id", sid, "expires_at", sess.ExpiresAt)
+		return nil, false
+	}
+
 	// Extend session expiration if close to expiring
 	if time.Until(sess.ExpiresAt) <= extendThreshold {
 		slog.Debug("Session close to expiring, extending expiration", "session_id", sid, "expires_at", sess.ExpiresAt)
